@@ -5,7 +5,8 @@
                 the uniform value the word denotes
      <D>_event  Q_D theta u <= x  <->  u <= F_D theta x   (or 1 - F_D theta x <= u when Q_D is
                 decreasing in u): with P(U <= p) = p this says the sample has CDF F_D.
-   Part 1 of 2: vocabulary, uniform draws, *_run, and the laws of weibull, pareto, gumbel, frechet. *)
+   This file: vocabulary, uniform draws, all six *_run, and value/law of weibull, pareto, gumbel,
+   frechet, cauchy.  Proofs/LawsTriangular.v: value/law of triangular.                             *)
 From Coq Require Import Reals ZArith List Lra Lia.
 From Interval Require Import Xreal.
 From RD Require Import Base.Expr Base.Run Model.Sampler Model.Continuous.
@@ -492,4 +493,108 @@ Proof.
     apply frechet_value; rewrite ?D3, ?D2, ?U; try lra.
     unfold word; lia.
   - intros u x Hu. apply frechet_event; lra.
+Qed.
+
+(* ================================== Cauchy(x0, gamma) ============================================== *)
+(* sample = x0 + gamma * tan(pi * u), u in [0,1) *)
+Definition Q_cauchy (x0 gamma u : R) : R := x0 + gamma * tan (PI * u).
+(* CDF (Wikipedia; integral of the density in the doc comment of cauchy.rs):
+   F(x) = 1/2 + atan((x - x0)/gamma)/pi *)
+Definition F_cauchy (x0 gamma x : R) : R := 1 / 2 + atan ((x - x0) / gamma) / PI.
+
+Lemma cos_PIu_nz u : 0 <= u < 1 -> u <> 1 / 2 -> cos (PI * u) <> 0.
+Proof.
+  intros Hu Hn E. pose proof PI_RGT_0 as P.
+  destruct (cos_eq_0_2PI_0 (PI * u)) as [K|K]; [nra|nra|assumption| |]; apply Hn; nra.
+Qed.
+
+Theorem cauchy_value t median scale w :
+  0 < dyR scale -> word w -> uR_std t w <> 1 / 2 ->
+  evalX (cauchy_expr t median scale w) = Xreal (Q_cauchy (dyR median) (dyR scale) (uR_std t w)).
+Proof.
+  intros Hs Hw Hn. pose proof (uR_std_range t w Hw) as Hu.
+  unfold cauchy_expr. cbn [evalX xun xbin]. rewrite !dyx_eval, u_std_eval. cbn [Xbind2 Xbind].
+  unfold Xtan'. rewrite is_zero_false by (apply cos_PIu_nz; assumption). reflexivity.
+Qed.
+(* the draw u = 1/2 (f64: the 2^11 words from 2^63 on) has no real value: tan(pi/2) *)
+Theorem cauchy_undefined t median scale w :
+  uR_std t w = 1 / 2 -> evalX (cauchy_expr t median scale w) = Xnan.
+Proof.
+  intros E. unfold cauchy_expr. cbn [evalX xun xbin]. rewrite !dyx_eval, u_std_eval, E.
+  cbn [Xbind2 Xbind]. unfold Xtan'. replace (PI * (1 / 2)) with (PI / 2) by field.
+  rewrite cos_PI2, is_zero_0. reflexivity.
+Qed.
+
+Lemma tan_le_atan th y : - (PI / 2) < th < PI / 2 -> (tan th <= y <-> th <= atan y).
+Proof.
+  intros Hth. pose proof (atan_bound y) as B. split; intros H.
+  - destruct (Rle_or_lt th (atan y)) as [|L]; [assumption|].
+    apply tan_increasing in L; [|lra|lra]. rewrite tan_atan in L. lra.
+  - destruct H as [L|E].
+    + apply tan_increasing in L; [|lra|lra]. rewrite tan_atan in L. lra.
+    + rewrite E, tan_atan. lra.
+Qed.
+
+(* tan(pi u) = tan(pi u - pi) on the upper half *)
+Lemma tan_PIu_shift u : 1 / 2 < u < 1 -> tan (PI * u) = tan (PI * u - PI).
+Proof.
+  intros Hu. pose proof PI_RGT_0 as P.
+  replace (PI * u) with (PI + (PI * u - PI)) at 1 by ring.
+  apply Rtrigo_facts.tan_pi_plus.
+  apply Rgt_not_eq. apply cos_gt_0; nra.
+Qed.
+
+(* the sample is the documented quantile  x0 + gamma * tan(pi * (v - 1/2))  at the rotated
+   position v = u + 1/2 mod 1:  atan of the standardised sample is pi*u on [0,1/2) and pi*u - pi on (1/2,1) *)
+Theorem cauchy_atan x0 gamma u :
+  0 < gamma ->
+  (0 <= u < 1 / 2 -> atan ((Q_cauchy x0 gamma u - x0) / gamma) = PI * u) /\
+  (1 / 2 < u < 1 -> atan ((Q_cauchy x0 gamma u - x0) / gamma) = PI * u - PI).
+Proof.
+  intros Hg. pose proof PI_RGT_0 as P. unfold Q_cauchy.
+  replace ((x0 + gamma * tan (PI * u) - x0) / gamma) with (tan (PI * u)) by (field; lra).
+  split; intros Hu.
+  - apply atan_tan. split; nra.
+  - rewrite tan_PIu_shift by assumption. apply atan_tan. split; nra.
+Qed.
+
+(* law: a uniform u on [0,1/2) u (1/2,1), rotated by 1/2, is compared with F *)
+Theorem cauchy_event x0 gamma u x :
+  0 < gamma ->
+  (0 <= u < 1 / 2 -> (Q_cauchy x0 gamma u <= x <-> u + 1 / 2 <= F_cauchy x0 gamma x)) /\
+  (1 / 2 < u < 1 -> (Q_cauchy x0 gamma u <= x <-> u - 1 / 2 <= F_cauchy x0 gamma x)).
+Proof.
+  intros Hg. pose proof PI_RGT_0 as P. unfold Q_cauchy, F_cauchy.
+  assert (S : forall th, x0 + gamma * tan th <= x <-> tan th <= (x - x0) / gamma).
+  { intros th. rewrite <- div_le_iff by assumption. lra. }
+  split; intros Hu; rewrite S.
+  - rewrite tan_le_atan by (split; nra).
+    rewrite div_le_iff by lra. lra.
+  - rewrite tan_PIu_shift by assumption. rewrite tan_le_atan by (split; nra).
+    transitivity (PI * (u - 1) <= atan ((x - x0) / gamma)); [lra|].
+    rewrite div_le_iff by lra. lra.
+Qed.
+
+Example cauchy_nonvacuous :
+  evalX (cauchy_expr F64 (-5, 0)%Z (3, 0)%Z (2 ^ 62)) = Xreal (Q_cauchy (-5) 3 (1 / 4)) /\
+  evalX (cauchy_expr F64 (-5, 0)%Z (3, 0)%Z (2 ^ 63)) = Xnan /\
+  (forall x, Q_cauchy (-5) 3 (1 / 4) <= x <-> 3 / 4 <= F_cauchy (-5) 3 x) /\
+  (forall x, Q_cauchy (-5) 3 (3 / 4) <= x <-> 1 / 4 <= F_cauchy (-5) 3 x).
+Proof.
+  assert (D3 : dyR (3, 0)%Z = 3) by (unfold dyR; simpl; lra).
+  assert (D5 : dyR (-5, 0)%Z = -5) by (unfold dyR; simpl; lra).
+  assert (U : uR_std F64 (2 ^ 62) = 1 / 4).
+  { unfold uR_std. change (2 ^ 62 / 2 ^ 11)%Z with (2 ^ 51)%Z.
+    replace (IZR (2 ^ 51)) with (2 ^ 51) by (rewrite (pow_IZR 2 51); reflexivity). field. }
+  assert (U2 : uR_std F64 (2 ^ 63) = 1 / 2).
+  { unfold uR_std. change (2 ^ 63 / 2 ^ 11)%Z with (2 ^ 52)%Z.
+    replace (IZR (2 ^ 52)) with (2 ^ 52) by (rewrite (pow_IZR 2 52); reflexivity). field. }
+  split; [|split; [|split]].
+  - rewrite <- U, <- D3, <- D5. apply cauchy_value; rewrite ?D3, ?U; try lra.
+    unfold word; lia.
+  - apply cauchy_undefined. exact U2.
+  - intros x. destruct (cauchy_event (-5) 3 (1 / 4) x ltac:(lra)) as [E _].
+    rewrite (E ltac:(lra)). split; lra.
+  - intros x. destruct (cauchy_event (-5) 3 (3 / 4) x ltac:(lra)) as [_ E].
+    rewrite (E ltac:(lra)). split; lra.
 Qed.
